@@ -126,6 +126,53 @@ class _NoFilenoStdin(io.StringIO):
         raise io.UnsupportedOperation("fileno")
 
 
+def _open_stdin(data, kind):
+    """A real descriptor for the simulated standard input (like the interpreter's fd 0):
+    /dev/null, a regular file, or - for data that fits into a pipe buffer - the read end of a
+    pipe whose write end is already closed (not seekable, reads are still deterministic).
+    Returns (fd, identity for the clean-up)."""
+    import fcntl
+    import os
+
+    if data is None:
+        fd = os.open(os.devnull, os.O_RDONLY)
+    elif kind == "pipe" and len(data) <= (1 << 20) - 4096:
+        fd, w = os.pipe()
+        try:
+            fcntl.fcntl(w, 1031, 1 << 20)  # F_SETPIPE_SZ
+            os.write(w, data)
+        finally:
+            os.close(w)
+    else:
+        path = simfs.root() + "/.stdin-data"
+        with open(path, "wb") as f:
+            f.write(data)
+        fd = os.open(path, os.O_RDONLY)
+        os.unlink(path)
+    st = os.fstat(fd)
+    return fd, (st.st_ino, st.st_dev)
+
+
+def _close_stdin(fd, ident, objects):
+    import os
+
+    seen = set()
+    for o in objects:
+        if o is None or id(o) in seen:
+            continue
+        seen.add(id(o))
+        try:
+            o.close()
+        except Exception:
+            pass
+    try:
+        st = os.fstat(fd)
+        if (st.st_ino, st.st_dev) == ident:
+            os.close(fd)
+    except OSError:
+        pass
+
+
 class _ErrorRecorder(logging.Filter):
     def __init__(self):
         super().__init__()
@@ -187,7 +234,9 @@ def run_sim(argv, files, chooser, capacity=65536, feeder=True, step_cap=K.STEP_C
     argv = [simfs.to_real(a) for a in argv]
     out_buf = simfs.CapturedStdoutBuffer()
     saved_std = (sys.stdin, sys.stdout, sys.stderr)
-    sys.stdin = _NoFilenoStdin("")
+    stdin_data = files.get(env["stdin_path"]) if env.get("stdin_path") else None
+    stdin_fd, stdin_ident = _open_stdin(stdin_data, env.get("stdin_kind"))
+    sys.stdin = open(stdin_fd, "r", closefd=False)
     sys.stdout = _Stdout(out_buf, encoding="utf-8", write_through=True)
     sys.stderr = _TtyStderr() if env.get("tty") else io.StringIO()
     kern = K.Kernel(chooser, capacity=capacity, feeder=feeder, step_cap=step_cap)
@@ -195,6 +244,7 @@ def run_sim(argv, files, chooser, capacity=65536, feeder=True, step_cap=K.STEP_C
     from . import procimage
 
     kern.images = procimage.Images(space, kern.start_method)
+    kern.images.stdin_of[0] = sys.stdin
     simfs._STDOUT_BUF = out_buf
     res = RunResult()
 
@@ -214,7 +264,9 @@ def run_sim(argv, files, chooser, capacity=65536, feeder=True, step_cap=K.STEP_C
                 pass
             res.stderr = simfs.to_sim(sys.stderr.getvalue())
             res.progress = "".join(getattr(sys.stderr, "progress", []))
+            stdin_objects = list(kern.images.stdin_of.values()) + [sys.stdin]
             sys.stdin, sys.stdout, sys.stderr = saved_std
+            _close_stdin(stdin_fd, stdin_ident, stdin_objects)
             for h in root.handlers:
                 try:
                     h.close()
